@@ -4,6 +4,7 @@ package verifharness
 import (
 	"bytes"
 	"fmt"
+	"io"
 	"strings"
 	"testing"
 
@@ -237,6 +238,7 @@ func execScript(w coraza.WAF, r *Req, script []Call) (obs []callObs, fired []Fir
 	fail = guard("transaction script", func() {
 		tx := w.NewTransaction()
 		defer func() { _ = tx.Close() }()
+		var reqReader, respReader io.Reader
 		for _, c := range script {
 			var it *types.Interruption
 			o := callObs{}
@@ -301,6 +303,21 @@ func execScript(w coraza.WAF, r *Req, script []Call) (obs []callObs, fired []Fir
 				tx.ProcessLogging()
 			case "close": // only generated by C07: the handle keeps being used after Close
 				_ = tx.Close()
+			case "rdr", "rdrresp": // only generated by C07: a body reader obtained once and read a few bytes at a time, between other calls
+				which := &reqReader
+				if c.Op == "rdrresp" {
+					which = &respReader
+				}
+				if *which == nil {
+					if c.Op == "rdr" {
+						*which, _ = tx.RequestBodyReader()
+					} else {
+						*which, _ = tx.ResponseBodyReader()
+					}
+				}
+				if *which != nil {
+					_, _ = (*which).Read(make([]byte, 3))
+				}
 			}
 			o.Ret = intrOf(it)
 			o.Intr = intrOf(tx.Interruption())
